@@ -114,11 +114,11 @@ def render(idx, s):
     for i, t in enumerate(types):
         col = [alt[i] for alt in alts]
         if t in ("str", "string", "newtype") and any(is_strlit(a.split(" | ")[0]) for a in col):
-            scrut.append(f"AsRef::<str>::as_ref(a{i})")
+            scrut.append(f"AsRef::<str>::as_ref(nat{i})")
         elif t in ("vec", "slice") and any(is_slice(a.split(" | ")[0]) for a in col):
-            scrut.append(f"AsRef::<[u8]>::as_ref(a{i})")
+            scrut.append(f"AsRef::<[u8]>::as_ref(nat{i})")
         else:
-            scrut.append(f"a{i}")
+            scrut.append(f"nat{i}")
     arms = []
     for ai, alt in enumerate(alts):
         pats = []
@@ -129,14 +129,15 @@ def render(idx, s):
             c = cmp_kind(a)
             if c:
                 pats.append("_")
-                guards.append(f"(a{i} {c[0]} {c[1]})")
+                guards.append(f"(nat{i} {c[0]} {c[1]})")
             else:
                 pats.append(binding_name(a, i, 0))
         pat = pats[0] if n == 1 else "(" + ", ".join(pats) + ")"
         g = (" if " + " && ".join(guards)) if guards else ""
         arms.append(f"            {pat}{g} => true,")
     scrut_expr = scrut[0] if n == 1 else "(" + ", ".join(scrut) + ")"
-    native_params = ", ".join(f"a{i}: &{t}" for i, t in enumerate(rust_tys))
+    # (the parameters of the native function have names no catalogue binding uses)
+    native_params = ", ".join(f"nat{i}: &{t}" for i, t in enumerate(rust_tys))
     wild = ", ".join("_" for _ in types)
     vals = "\n        ".join(f"let vals{i}: Vec<{t}> = vec![{', '.join(TYPES[ty][1])}];" for i, (t, ty) in enumerate(zip(rust_tys, types)))
     loops_open = "".join(f"for v{i} in vals{i}.iter() {{ " for i in range(n))
@@ -285,6 +286,31 @@ def shapes(tier):
             add([t], [[a1], [a2]])
     add(["S"], [["S { a: 0, .. }"], ["S { b: true, .. }"]])
     add(["S"], [["S { b: true, .. }"], ["S { a: 0, .. }"], ["S { a: 2, b: _ }"]])
+    # binding names: a pattern may bind any identifier, also one that the generated closure uses for
+    # something of its own (its parameters a<i>, the temporaries of eq!/ne! operands l<k> and of the
+    # compared positions m<i>, the reporter, the mismatch binding of the diagnostics arm); the
+    # decision must not depend on the name
+    names = ["a0", "a1", "l0", "l1", "m0", "m1", "reporter", "mismatch"]
+    if quick:
+        names = ["a1", "a0", "l0", "m1", "m0", "reporter"]
+    for nm in names:
+        for c in ["eq!(&1)", "ne!(&2)"]:
+            add(["u8", "u8"], [[nm, c]], must_accept="binding-name")
+            add(["u8", "u8"], [[c, nm]], must_accept="binding-name")
+            add(["u8", "u8"], [[nm, c]], f"*{nm} != 0", must_accept="binding-name")
+            add(["u8", "u8"], [[c, nm]], f"*{nm} >= 2", must_accept="binding-name")
+        add(["u8", "u8"], [[nm, "eq!(&1)"], ["eq!(&3)", nm]], must_accept="binding-name")
+        add(["u8", "u8"], [[nm, "eq!(&1)"], ["ne!(&2)", nm]], f"*{nm} != 3", must_accept="binding-name")
+        add(["u8", "u8", "u8"], [[nm, "eq!(&1)", "ne!(&2)"]], must_accept="binding-name")
+        add(["u8", "u8", "u8"], [["eq!(&3)", "ne!(&0)", nm]], f"*{nm} == 1 || *{nm} == 2", must_accept="binding-name")
+        add(["u8", "str"], [[nm, '"a"']], must_accept="binding-name")
+        add(["str", "u8"], [['"a" | "b"', nm]], f"*{nm} >= 2", must_accept="binding-name")
+        add(["u8"], [[f"{nm} @ 1..=2"]], f"*{nm} == 2", must_accept="binding-name")
+    # eq! and ne! at the same position of different alternatives
+    for c1, c2 in [("eq!(&1)", "ne!(&2)"), ("ne!(&2)", "eq!(&1)"), ("ne!(&0)", "eq!(&3)")]:
+        add(["u8", "u8"], [[c1, "_"], [c2, "3"]])
+        add(["u8", "u8"], [["0", c1], ["_", c2]])
+        add(["u8", "u8"], [[c1, c2], [c2, c1]])
     # three arguments
     for a in itertools.product(["1", "_", "eq!(&2)", "0 | 3"], repeat=3):
         if quick and a.count("_") < 1:
@@ -522,7 +548,10 @@ def run(pid, tier, replay, start):
     by_idx = {i.idx: i for i in insts}
     rejected_keys = sorted(by_idx[i].key for i in rejected)
     for i in rejected:
-        if by_idx[i].meta.get("must_accept"):
+        ma = by_idx[i].meta.get("must_accept")
+        if ma == "binding-name":
+            rep.violation("pattern:binding-name-rejected", f"matching!({by_idx[i].key}) differs from accepted invocations only in the name of a binding, but is rejected at compile time, so it cannot accept what the equivalent match accepts", {"pattern": by_idx[i].key})
+        elif ma:
             rep.violation("pattern:three-or-more-alternatives", f"matching!({by_idx[i].key}) is the documented disjunctive form but is rejected at compile time, so it cannot accept what the equivalent match accepts", {"pattern": by_idx[i].key})
     if len(kept) < 100:
         glib.machinery("vacuous: fewer than 100 accepted patterns")
@@ -530,7 +559,7 @@ def run(pid, tier, replay, start):
     cov = {
         "evaluations": len(kept),
         "distinct_nontrivial": len(set(i.key for i in kept if any(a != "_" for alt in i.meta["alts"] for a in alt))),
-        "rule": "catalogue-driven grammar of matching! invocations (see gen/c06.py): all sub-patterns of 11 argument types for 1 argument, all u8-binding patterns x 3 guards, type pairs x sub-pattern catalogues for 2 arguments, guard x eq!/ne! combinations, every pair of two-alternative disjunctions over 6 (quick: 4) sub-patterns with eq!/ne! in all positions, mixed literal kinds per position, 3 arguments; each instance evaluated on every argument tuple of its finite domain in three evaluation modes against a native match; non-trivial = not all sub-patterns are wildcards; distinct = distinct invocation texts",
+        "rule": "catalogue-driven grammar of matching! invocations (see gen/c06.py): all sub-patterns of 11 argument types for 1 argument, all u8-binding patterns x 3 guards, type pairs x sub-pattern catalogues for 2 arguments, guard x eq!/ne! combinations, every pair of two-alternative disjunctions over 6 (quick: 4) sub-patterns with eq!/ne! in all positions, mixed literal kinds per position, 3 arguments, bindings named like the identifiers of the expansion (a<i>, l<k>, m<i>, reporter, mismatch) next to eq!/ne! and string literals, eq!/ne! mixed at one position across alternatives; each instance evaluated on every argument tuple of its finite domain in three evaluation modes against a native match; non-trivial = not all sub-patterns are wildcards; distinct = distinct invocation texts",
         "samples": [{"pattern": sample.key, "code": sample.code[:1500]}],
         "exhaustive": True,
         "generated": len(insts),
